@@ -106,13 +106,24 @@ CHECKS = {
        "C11_sharer_adds_no_work (run level: inserting anywhere in any program a call whose key is in the retention "
        "table at that moment changes no batch and no other caller's answer); plus the step "
        "theorems C11_shared_adds_no_work (a call whose key is remembered queues nothing, creates no future and gets "
-       "that future's outcome) and C11_fresh_adds_work. The retention machine is tied to the real code by a "
+       "that future's outcome) and C11_fresh_adds_work. WHEN a key is remembered (Batcher/Window.lean, invariant T over a "
+       "ghost record of the instant every future was answered, preserved unconditionally by every machine function): "
+       "C11_retention_zero_forgets (retention_timeout = 0: whatever is remembered is still pending, at every instant of "
+       "every run), C11_old_result_only_within_window (at an input instant t at which every timer due before t has fired, "
+       "a remembered answered future was answered at some c with t <= c + retention_timeout: no call after the window "
+       "gets the old result), C11_remembered_throughout_window (a remembered answered future, answered at c, is still "
+       "remembered at every input instant t <= c + retention_timeout whatever else happened in between), advance_quiet "
+       "(advance leaves nothing due unless its fuel ran out; the driver reports programDone and the harness treats a "
+       "false as a broken tie). The retention machine is tied to the real code by a "
        "virtual-time differential over 1..3 keys with gaps around retention_timeout and completion times, and by "
        "chained re-requests issued in the very step of the answer; monitor: no batch carries a key twice, sharers get "
        "the original's outcome, a call after the window is computed afresh, nothing is remembered with retention 0",
-  note=NOTE_COMMON + "Partial: 'sharers receive the same outcome as the original' and 'fresh after the window' are "
-       "step theorems + differential + monitor, not run-level theorems; re-requests in the step of the answer are exact "
-       "ties for the timed model and are judged by the monitor only. call_later exactness assumed.",
+  note=NOTE_COMMON + "Partial: the window theorems speak about the retention table at input instants; that the outcome "
+       "a sharer reads off a remembered future is the original's is C04's run-level theorem (a future is answered "
+       "once); re-requests in the step of the answer and calls at exactly completion + retention_timeout are ties for "
+       "the timed model and are judged by the monitor only (the implementation decides the latter with >=: new work). "
+       "A loop that is not running while the clock advances (F28) is outside the machine: scripted scenarios. "
+       "call_later exactness assumed.",
   tech="Lean 4 proof (inductive invariant of the retention / pipeline / timer bookkeeping over all input programs + "
        "step theorems) + virtual-time differential + sharing monitor",
   ref="§7 Batcher"),
